@@ -21,7 +21,7 @@ RULE = (
     "containers {PatchedCounts, PatchedSumWeights, NormalisedCounts, CorrFunc (7 member subsets), "
     "CorrData, HistData, RedshiftData} x bins {1,2,3} x patches {2,3,4} x auto/cross with "
     "fingerprint contents; on each: +, sum(), the accumulation idiom total=0; total+=c (twice, operands unchanged), -, * for scalars {0,1,2,-1,0.5,float64(3)} and rejected "
-    "{True,'2',None,array}, ==/!= against copy and 6 perturbations (data containers also with the same NaN jackknife sample on both sides, count containers with NaN counts from x * nan), incompatible operands (other binning, binning whose last edge differs by 2e-6, patch count, one patch, one sample), "
+    "{True,'2',None,array}, ==/!= against copy and 6 perturbations (data containers also with the same NaN jackknife sample on both sides, count containers with NaN counts from x * nan), is_compatible() with and without require on copies and on containers with other edges / bin count / patch count, incompatible operands (other binning, binning whose last edge differs by 2e-6, patch count, one patch, one sample), "
     ".bins[e]/.patches[e] for every int in [-n,n-1], out-of-range ints, every slice with "
     "start,stop in {None,-n..n}, stepped slices (step 2,3; omitted bins merge into the preceding selected bin), iteration, loops over a retained indexer after abandoned loops; commuting with sample_patch_sum/sample. "
     "Non-trivial: container with >= 2 bins or an auto container (every case has >= 2 patches); "
@@ -182,6 +182,22 @@ def run_case(case):
         rec.expect_true("eq", lambda p=p: not (x == p) and (x != p),
                         f"container compares equal to one with different {name}")
     rec.expect_true("eq", lambda: not (x == 1) and not (x == None), "equal to a non-container")  # noqa: E711
+    # the non-raising form of the compatibility check agrees with what the operators demand
+    rec.expect_true("compatible", lambda: x.is_compatible(y) is True and x.is_compatible(y, require=True) is True,
+                    "is_compatible() is false for a copy")
+    for name, p in perturbed:
+        if name not in ("more-bins", "more-patches", "one-patch", "edges"):
+            continue
+
+        def refused(p=p):
+            if x.is_compatible(p) is not False:
+                return False
+            try:
+                x.is_compatible(p, require=True)
+            except (ValueError, TypeError):
+                return True
+            return False
+        rec.expect_true("compatible", refused, f"is_compatible() accepts a container with different {name}")
     if is_data and N >= 2:
         # an undefined (NaN) jackknife sample, e.g. a bin whose pairs all come from one patch: still equal to itself
         def nan_sample_equal():
